@@ -814,7 +814,7 @@ func (m *Machine) call(e *N, sc *Scope) Value {
 // evaluated; -1 = checked by the built-in itself after evaluation.
 var builtinArity = map[string]int{
 	BiClock: 0, BiLen: 1, BiAppend: -1, BiRemove: 2, BiDelete: 2, BiKeys: 1, BiValues: 1,
-	BiAbs: 1, BiSqrt: 1, BiPow: 2, BiSin: 1, BiCos: 1, BiTan: 1, BiMin: -1, BiMax: -1, BiRound: 1, BiInput: -1,
+	BiAbs: 1, BiSqrt: 1, BiPow: 2, BiSin: 1, BiCos: 1, BiTan: 1, BiMin: -1, BiMax: -1, BiRound: 1, BiInput: -1, BiInputLatin: -1,
 }
 
 func (m *Machine) bnum(e *N, name string, v Value) float64 {
@@ -947,7 +947,7 @@ func (m *Machine) builtin(e *N, name string, a []Value) Value {
 			}
 		}
 		return best
-	case BiInput:
+	case BiInput, BiInputLatin:
 		if len(a) > 1 {
 			bad("at most one argument")
 		}
